@@ -95,10 +95,10 @@ type scriptObs struct {
 	Reports    []reportObs `json:"reports"`
 	Helpers    []helperObs `json:"helpers"`
 	LogCalls   int         `json:"log_calls"`
-	LogSeq     int64       `json:"log_seq"`      // sequence number of the (first) Log call
-	FlushAlive []int       `json:"flush_alive"`  // helpers (start index) alive at the Log call
-	FlushTree  []string    `json:"flush_tree"`   // work dir at the Log call
-	FlushOK    bool        `json:"flush_ok"`     // the work dir could be read at the Log call
+	LogSeq     int64       `json:"log_seq"`     // sequence number of the (first) Log call
+	FlushAlive []int       `json:"flush_alive"` // helpers (start index) alive at the Log call
+	FlushTree  []string    `json:"flush_tree"`  // work dir at the Log call
+	FlushOK    bool        `json:"flush_ok"`    // the work dir could be read at the Log call
 	Log        string      `json:"log"`
 	DoneNs     int64       `json:"done_ns"` // when the subtest goroutine ended, relative to t0
 }
@@ -239,10 +239,11 @@ func (t *vT) verdict() string {
 // ---------------------------------------------------------------- helper log
 
 // Every helper process appends single lines (one write each, O_APPEND) to $VH_LOG:
-//   started <script> <label> <kind> <pid> <unix ns>
-//   sig     <script> <label> <pid> <unix ns> <signal>
-//   exit    <script> <label> <pid> <unix ns>
-//   report  <script> <pid> <json {cwd, env}>
+//
+//	started <script> <label> <kind> <pid> <unix ns>
+//	sig     <script> <label> <pid> <unix ns> <signal>
+//	exit    <script> <label> <pid> <unix ns>
+//	report  <script> <pid> <json {cwd, env}>
 func appendLog(path, line string) {
 	f, err := os.OpenFile(path, os.O_WRONLY|os.O_APPEND|os.O_CREATE, 0o666)
 	if err != nil {
